@@ -6,11 +6,11 @@ MC = 'explicit-state model checking of the real code: breadth-first search over 
 ENUM = "bounded-exhaustive enumeration of inputs against a reference model (explicit enumeration, no sampling)"
 CHECKS = {
  "C02": ("model_checking", "explicit-state model checking of the real code in the full-session world: the real Session event loop (select!), tracker task, connection tasks and extractor run as tokio tasks under the paused clock over HTTP/connect seams; BFS over honest-peer event orders with replay-from-scratch successors, plus a fair-continuation liveness obligation from every unexpanded state", "E-SYS full-session world",
-         "For a family of geometries (single-block and 16387-byte multi-block pieces, short/exact last piece, single file, multi-file with a boundary inside a piece and a zero-length file, 11 pieces = no end game) and piece distributions over 1..3 honest peers (seeder, complementary sets, redundant peers that leave and are offered again, Have-only announcers): BFS over all orders of handshake/bitfield/have/unchoke/answer(oldest|newest|split in two reads)/choke/interest/disconnect/tick events with every chooser tie-break; in every state no task panicked and the session is alive; every state that is not expanded must reach all pieces owned + extractor ran + every output file byte-identical + event loop still iterating under the fair continuation (900 s virtual horizon).",
+         "For a family of geometries (single-block and 16387-byte multi-block pieces, short/exact last piece, single file, multi-file with a boundary inside a piece and a zero-length file, 11 pieces = no end game) and piece distributions over 1..3 honest peers (seeder, complementary sets, redundant peers that leave and are offered again, Have-only announcers): BFS over all orders of handshake/bitfield/have/unchoke/answer(oldest|newest|split in two reads)/choke/interest/disconnect/tick events with every chooser tie-break; in every state no task panicked and the session is alive; every state that is not expanded must reach all pieces owned + extractor ran + every output file byte-identical + event loop still iterating under the fair continuation (900 s virtual horizon). Further scenarios: simultaneous arrival of one peer's answer and another peer's FIN (both orders), manager broadcasts held back per connection task (gate hook), a connected address re-listed under another peer id; further state invariants: Have implies a stored verified piece, an owned piece stays owned, no connection task waits for a block its honest peer already delivered. Unseamed: the one-seeder downloads are repeated over real loopback TCP (connect seam inactive) and must produce the same message sequence and files.",
          "fairness assumptions stated in the evidence; only outgoing connections exist in this world", "DESIGN.md C02"),
 
  "C01": ("model_checking", MC, "E-SYS pumped world",
-         "BFS over all histories (depth 10 / 12) of 1..2 adversarial peers (correct, bit-flipped, mis-indexed, shifted, short/long, duplicated, unrequested blocks; choke; close; reset) plus an observer that requests data, at most 3 (quick) / 4 (thorough) dishonest events per history, every tie-break of the piece chooser enumerated. In every reachable state: every *.piece file hashes to its name and to a piece of the torrent, Have implies a stored verified file, every Have/Bitfield/Piece frame written refers to stored verified data and carries the right bytes, output files only from complete verified data, no live task sits on a fully assembled piece, every Reserved status is backed by a live unchoking peer that is fetching it.",
+         "BFS over all histories (depth 10 / 12) of 1..2 adversarial peers (correct, bit-flipped, mis-indexed, shifted, short/long, duplicated, unrequested blocks; choke; close; reset) plus an observer that requests data, at most 3 (quick) / 4 (thorough) dishonest events per history, every tie-break of the piece chooser enumerated. In every reachable state: every *.piece file hashes to its name and to a piece of the torrent, Have implies a stored verified file, every Have/Bitfield/Piece frame written refers to stored verified data and carries the right bytes, output files only from complete verified data, no live task sits on a fully assembled piece, every Reserved status is backed by a live unchoking peer that is fetching it. Two full-session scenarios borrowed from C02 (a host re-listed by the tracker under a new peer id while its old connection lives; two seeders with held-back broadcasts) are run with the storage invariants only.",
          "payload bytes abstracted to per-block tags in the state key; 2-piece torrent (16387 B + 5 B); bounds as stated in the evidence", "DESIGN.md C01"),
  "C06": ("model_checking", "exhaustive enumeration of (message stream, segmentation into reads, ending) triples against the real Connection::recv_frame polled by hand, reference stream decoder as oracle; plus exhaustive undecodable/closed endings inside the real connection task", "E-SEG + E-SYS",
          "Every stream of <=2 (quick) / <=3 (thorough) messages over a 16-symbol alphabet (valid, unknown ids, wrong fixed lengths, oversized, bad protocol strings, 16 KiB and maximal frames) x every segmentation (all 2^(n-1) for short streams, all subsets of <=2/3 cuts from a cut-point set otherwise) x {open, EOF, truncation points}: frames delivered after each read equal the reference decoding of the delivered prefix (nothing complete is withheld, unknown ids skipped), no panic, the buffer is always a proper frame prefix <= one maximal frame, undecodable or truncated streams raise an error once the offending message is complete. E-SYS: the same endings in a real PeerHandler::run() task must end the task and make the manager drop the peer in that very step, without any timer.",
@@ -19,28 +19,28 @@ CHECKS = {
          "BFS to depth 6 / 8 over a 14-symbol alphabet (good handshake, two single-bit hash corruptions, foreign peer id, wrong protocol string, wrong pstrlen, truncated handshake, 7 ordinary messages) on an outgoing and an incoming connection with the manager owning all pieces, plus all 160 single-bit hash corruptions: first written message is the own correct handshake, nothing is written on an incoming connection before a valid handshake, after a foreign handshake nothing more is written, the task ends and the manager forgets the peer, no Piece frame without a completed valid handshake.",
          "handshakes are recognised by the reference stream decoder over all bytes fed, so misaligned ones do not count", "DESIGN.md C08"),
  "C09": ("model_checking", "exhaustive enumeration of request histories (240-request boundary alphabet x choke contexts x pairs/triples with real rotation decisions in between) executed in the pumped world (real connection task + real manager); oracle on written frames", "E-SYS pumped world",
-         "Every request of {5 indices}x{8 offsets}x{6 lengths} in each of 5 choke contexts on both connection directions, every pair (loader request, any request) with nothing / choke / choke+unchoke by the real rotation in between (thorough: all 240^2 pairs and triples over 12 requests): at most one Piece per request, same index and offset, exactly the stored bytes, only while the last choke-state frame written is Unchoke, only owned pieces, length <= 16 KiB inside the piece, no panic.",
+         "Every request of {5 indices}x{8 offsets}x{6 lengths} in each of 5 choke contexts on both connection directions, every pair (loader request, any request) with nothing / choke / choke+unchoke by the real rotation in between (thorough: all 240^2 pairs and triples over 12 requests): at most one Piece per request, same index and offset, exactly the stored bytes, only while the last choke-state frame written is Unchoke, only owned pieces, length <= 16 KiB inside the piece, no panic. Plus a BFS (depth 8 / 10, both directions) over interest / bitfield / real rotation / request events that reaches the manager states in which the peer holds or held the optimistic unchoke.",
          "overflow checks on (as cargo test / cargo run builds); nothing claimed for fields outside the alphabet", "DESIGN.md C09"),
  "C10": ("model_checking", MC + "; plus exhaustive enumeration of the block list for every piece length 1..=81921", "E-ENUM + E-SYS pumped world",
-         "PieceRx::left(n) for EVERY n in 1..=81921 tiles n exactly (contiguous, <=16 KiB, only the last shorter). For 7 piece lengths around the block size plus the short last piece: BFS over every order in which the peer answers outstanding requests, duplicates an answered block or stops: requests name the piece being fetched, never overlap, cover it exactly; an accepted block is followed by a further request while blocks are unrequested; the piece is stored exactly when the last outstanding block arrives.",
+         "PieceRx::left(n) for EVERY n in 1..=81921 tiles n exactly (contiguous, <=16 KiB, only the last shorter). For 7 piece lengths around the block size plus the short last piece: BFS over every order in which the peer answers outstanding requests, duplicates an answered block or stops: requests name the piece being fetched, never overlap, cover it exactly; an accepted block is followed by a further request while blocks are unrequested; the piece is stored exactly when the last outstanding block arrives. Two-connection end-game scenarios: an assignment cancelled because the other connection finished the piece, re-assignment, no connection waits for a delivered block, requested blocks are tracked.",
          "one connection, honest payloads", "DESIGN.md C10"),
  "C11": ("model_checking", MC, "E-SYS pumped world (gated broadcasts)",
          "BFS (depth 9-11 quick / 11-14 thorough) over all interleavings of piece completions on a downloading connection with connect/handshake/choke/unchoke of an outgoing and an incoming observer and the release of each held-back manager broadcast: the bitfield written equals the set of verified stored pieces at that moment, every Have(i) is written only when piece i is stored, and whenever an observer is not choking us every completion released to its connection task has been announced, in completion order.",
          "single-block pieces; completion order = order of SendHave broadcasts", "DESIGN.md C11"),
  "C12": ("model_checking", MC, "E-SYS pumped world",
-         "BFS (depth 6 quick / 8-9 thorough; 675k states, 5.1M transitions in the thorough tier) over all peer-event histories of 2..3 real connection tasks (bitfield subsets, have, choke, unchoke incl. repeated, interest, answering the outstanding request also while choking, disconnect, gated broadcast release) on a 3-piece (end game) and a 13-piece torrent, every chooser tie-break enumerated. In every quiescent state: Have is monotone, every Reserved status is backed by a connected peer that does not choke us, holds that assignment and whose task fetches it, every Request names an advertised piece the client lacks, neither manager nor task panics.",
+         "BFS (depth 6 quick / 8-9 thorough; 675k states, 5.1M transitions in the thorough tier) over all peer-event histories of 2..3 real connection tasks (bitfield subsets, have, choke, unchoke incl. repeated, interest, answering the outstanding request also while choking, disconnect, gated broadcast release) on a 3-piece (end game) and a 13-piece torrent, every chooser tie-break enumerated. In every quiescent state: Have is monotone, every Reserved status is backed by a connected peer that does not choke us, holds that assignment and whose task fetches it, every Request names an advertised piece the client lacks, neither manager nor task panics. Dedicated scenarios allow repeated / late bitfields and, with held-back broadcasts, peers that leave before their task saw a completion.",
          "invariants evaluated at quiescence (Lipton reduction argued in DESIGN.md 0.2)", "DESIGN.md C12"),
  "C13": ("model_checking", "exhaustive enumeration of manager states x every tie-break (every Fisher-Yates digit vector of the real shuffle) against the statement's definition; the real choose_piece_index is called for each", "E-MGR",
-         "n<=4 pieces: every status vector over {Missing, Reserved(1), Reserved(2), Have} x every advertised set of the asked peer and 1-2 others x all n! tie-breaks (quick 1.2M, thorough more); end-game threshold family n=9..12: every (have,reserved,missing) split, structured advertised sets, every candidate brought to the front once. The pick must be advertised, not owned, not reserved unless fewer than ten remain, and of minimal availability; nothing is picked iff no such piece exists.",
+         "n<=4 pieces: every status vector over {Missing, Reserved(1), Reserved(2), Have} x every advertised set of the asked peer and 1-2 others x all n! tie-breaks (quick 1.2M, thorough more); end-game threshold family n=9..12: every (have,reserved,missing) split, structured advertised sets, every candidate brought to the front once. The pick must be advertised, not owned, not reserved unless fewer than ten remain, and of minimal availability; nothing is picked iff no such piece exists. Plus BFS over real Bitfield / Have / Choke / Unchoke commands of 2-3 peers (3- and 12-piece torrents): every pick the manager makes on an unchoke is judged against the harness's own record of what the peers advertised.",
          "the asked peer holds no own assignment; observed at choose_piece_index", "DESIGN.md C13"),
  "C14": ("model_checking", MC + " (manager-only peers for E-MGR)", "E-MGR + E-SYS",
          "BFS over command histories handed to the real manager for N=2,3 (all events), N=12/13 symmetric (brought to the slot limit, then all events) with the optimistic choice enumerated: never more than 10 regular + 1 optimistic unchokes; after every rotation that was carried out slot holders are interested, no better interested peer is left choked, uninterested peers are choked, and the broadcast equals the state change. E-SYS: 3 real connection tasks with gated broadcasts: once nothing is held back, the Choke/Unchoke frames each peer received add up to the manager's view.",
          "both reported rates set to the same value (which rate the policy should use is not judged)", "DESIGN.md C14"),
  "C19": ("model_checking", "(a) bounded-exhaustive enumeration of reply bodies against a reference reading; (b) exhaustive enumeration of tracker fault words F^n.S (all words n<=3, homogeneous n<=70) executed in the full-session world: real event_loop, tracker task, retry loop, handle_tracker_cmd, spawn_peer_handler over HTTP and connect seams", "E-ENUM + E-SYS full-session world",
-         "(a) totality on every string over the C16 alphabet up to length 6/7; 27k structured replies (peer entries good/malformed, interval and failure-reason shapes) read exactly as the harness reads them. (b) for every fault word, with a live connection present: after each failed announce the manager must process that connection's next message in the same quiescent step, after the good announce the listed peers are contacted; no panic, no deadlock (n=65..70 cross the 64-slot channel).",
+         "(a) totality on every string over the C16 alphabet up to length 6/7; 27k structured replies (peer entries good/malformed, interval and failure-reason shapes) read exactly as the harness reads them. (b) for every fault word, with a live connection present: after each failed announce the manager must process that connection's next message in the same quiescent step, after the good announce the listed peers are contacted; no panic, no deadlock (n=65..70 cross the 64-slot channel). Every fault word is also run with a second connection ending after 0..2 failures.",
          "HTTP layer replaced by the seam (request observed after reqwest built it)", "DESIGN.md C19"),
  "C20": ("model_checking", MC + ", virtual time", "E-SYS pumped world, paused clock",
-         "BFS over every timed script: each 120 s interval cut into slots (30/60/90 s and 1/119 s), one of up to 7 symbols per slot, 6 (quick) / 12 (thorough) intervals, states merged on real state + slot: a connection with only keep-alives or silence since t is ended, forgotten and its reservation released by t+360 s; a connection with a live message in every interval is never closed for inactivity; exactly one KeepAlive frame is written per tick on a live connection.",
+         "BFS over every timed script: each 120 s interval cut into slots (30/60/90 s and 1/119 s), one of up to 7 symbols per slot, 6 (quick) / 12 (thorough) intervals, states merged on real state + slot: a connection with only keep-alives or silence since t is ended, forgotten and its reservation released by t+360 s; a connection with a live message in every interval is never closed for inactivity; exactly one KeepAlive frame is written per tick on a live connection. Scenarios in which the peer never handshakes or handshakes late (outgoing and incoming) are included.",
          "messages arrive at slot times only", "DESIGN.md C20"),
  # id: (level, technique, engine, text, note, design_ref)
  "C03": ("exploration", ENUM, "E-ENUM",
@@ -50,7 +50,7 @@ CHECKS = {
          "Every name / path string of <=3 components over {a,b,..,.,empty} (relative and absolute into a canary directory), for single- and multi-file torrents, is extracted by the real extractor inside a disposable tree; a recursive listing before/after shows every file or directory created. Anything outside the download directory (or outside ./name for an ordinary multi-file name) is a violation; refusing is fine.",
          "filesystem oracle; symlinks and bare '/'-rooted paths (which would hit the real root) are outside the alphabet", "DESIGN.md C04"),
  "C05": ("exploration", ENUM, "E-ENUM",
-         "All documents of a grammar (key subsets and orders, 5 sibling value shapes incl. nested keys spelled info, 6 info dictionaries, 04:info spelling, trailers) go through the real Metainfo::from_bencode; for every accepted one info_hash() must equal SHA-1 of the byte span of the top-level info value found by the harness's own span parser.",
+         "All documents of a grammar (key subsets and orders, 5 sibling value shapes incl. nested keys spelled info, 6 info dictionaries, 04:info spelling, trailers) go through the real Metainfo::from_bencode; for every accepted one info_hash() must equal SHA-1 of the byte span of the top-level info value found by the harness's own span parser. The grammar also puts values in front of the torrent dictionary (non-dictionaries, decoy dictionaries with an info key) and repeats the info key inside it (hash and fields must then come from the same, last, occurrence).",
          "reference span parser harness/src/refb.rs; duplicate top-level keys not in the alphabet", "DESIGN.md C05"),
  "C07": ("exploration", ENUM, "E-ENUM",
          "For every message kind, products of a 14-value boundary alphabet per u32 field, 9 payload sizes up to and beyond the frame limit, 36 hash/id patterns and every bit vector up to 19 (quick) / 24 (thorough) bits: emitted bytes equal the reference BEP3 encoder, Frame::parse of those bytes (alone and followed by junk) yields the same fields, consumes exactly the message and re-serialises identically; bitfield bit order checked in both directions.",
@@ -59,13 +59,13 @@ CHECKS = {
          "Every value of three index-addressable families (depth<=3, width<=2 quick / 3 thorough, leaf alphabet incl. i64 extremes, delimiter-like strings, prefix-related and non-UTF-8 keys) is encoded by the real BEncoder and compared byte for byte with the harness's canonical encoder, decoded by the real BDecoder and compared with the original, and re-encoded; non-canonical key order decodes to the same value.",
          "reference encoder/parser harness/src/refb.rs", "DESIGN.md C15"),
  "C16": ("exploration", ENUM, "E-ENUM",
-         "EVERY byte string over the 10-symbol alphabet 'ilde012:-a' up to length 8 (quick, 1.1e8 strings) / 9 (thorough), every truncation and single-symbol substitution of a document corpus, and a nesting ladder run in subprocesses: accept/reject and decoded values must agree with the reference recogniser and nothing may panic or crash. One known finding (unterminated containers accepted at end of input) is listed in known_findings.json and identified by a completion predicate; every other disagreement fails the check.",
+         "EVERY byte string over the 10-symbol alphabet 'ilde012:-a' up to length 8 (quick, 1.1e8 strings) / 9 (thorough), every truncation and single-symbol substitution of a document corpus, and a nesting ladder run in subprocesses: accept/reject and decoded values must agree with the reference recogniser and nothing may panic or crash. One known finding (unterminated containers accepted at end of input) is listed in known_findings.json and identified by a completion predicate; every other disagreement fails the check. A family of 108 huge / overflowing / zero-padded string-length headers is decoded in a subprocess (allocation aborts are not catchable in-process).",
          "reference recogniser harness/src/refb.rs; the ladder is a labelled probe outside the exhaustive bound", "DESIGN.md C16"),
  "C17": ("exploration", ENUM, "E-ENUM",
          "Totality of Metainfo::from_bencode on every string over the C16 alphabet up to length 6/7; a grammar of ~9000 well-formed documents (present/absent/ill-typed/zero/huge fields, file lists with malformed entries, overflowing sums): on success every field is compared with the harness's reading and every accessor is called for every valid index under catch_unwind; create_file round-trips for 7 boundary sizes x 3 names.",
          "harness reading skips malformed files entries like the repository's own tests; overflow checks on (as in cargo test builds)", "DESIGN.md C17"),
  "C18": ("exploration", ENUM + "; the real TrackerClient::run is executed and the request reqwest built is captured at the HTTP seam", "E-ENUM over the HTTP seam",
-         "For every byte value at 3 (quick) / 6 (thorough) positions of the info-hash plus all-equal hashes, 5 announce URLs (with and without query string), 5 ids and 3 lengths, the real TrackerClient::run builds its request with reqwest; the final URL is split and percent-decoded by the harness: same host/port/path, original query pairs kept, exactly one info_hash decoding to the 20 bytes, peer_id, port=6881, left.",
+         "For every byte value at 3 (quick) / 6 (thorough) positions of the info-hash plus all-equal hashes, 5 announce URLs (with and without query string), 5 ids and 3 lengths, the real TrackerClient::run builds its request with reqwest; the final URL is split and percent-decoded by the harness: same host/port/path, original query pairs kept, exactly one info_hash decoding to the 20 bytes, peer_id, port=6881, left. Cases with 1-2 (thorough 3) failed announces before the good one: every retry request is judged as well.",
          "request observed after reqwest built it (seam), not on a socket", "DESIGN.md C18"),
 }
 PENDING = {
